@@ -264,6 +264,14 @@ def p_range(ex, args, kw, st):
 def p_enumerate(ex, args, kw, st):
     items = ex.concrete_iter(args[0])
     if items is None:
+        seq = args[0]
+        if isinstance(seq, SArr) and seq.ndim == 1:
+            f = snap(seq)
+            seq = SSeq(seq.shape[0], lambda i, f=f: f((i,)), seq.kind)
+        if isinstance(seq, SSeq) and len(args) == 1 and not kw:
+            out = SSeq(seq.length, lambda i, s_=seq: (num_term(i), s_.fn(i)), 'obj')
+            out.enumerated = True          # element k is (k, seq[k])
+            return out
         raise Unsupported('enumerate of symbolic iterable')
     start = concrete(kw.get('start', args[1] if len(args) > 1 else 0))
     return [(i + start, x) for i, x in enumerate(items)]
@@ -798,6 +806,16 @@ def np_array(ex, args, kw, st):
     raise Unsupported('np.array of this value')
 
 
+def np_prod(ex, args, kw, st):
+    v = args[0]
+    if isinstance(v, (tuple, list)) and all(is_num(x) for x in v) and not kw:
+        r = 1
+        for x in v:
+            r = ex.binop(ast.Mult(), r, x, st)
+        return r
+    raise Unsupported('np.prod of this value')
+
+
 def np_asarray(ex, args, kw, st):
     """np.asarray / asanyarray: the array itself (no copy) for arrays, a new array for tuples and
     lists of numbers."""
@@ -1034,7 +1052,7 @@ TABLE = {
     'np.count_nonzero': np_count_nonzero, 'np.sum': np_sum, 'np.nansum': np_sum, 'np.any': np_any, 'np.all': np_all,
     'np.diff': np_diff, 'np.argmax': np_argmax_first_true,
     'PchipInterpolator': p_interp('PchipInterpolator'), 'np.ndim': np_ndim,
-    'forall_real': cl_forall_real, 'np.unique': np_unique, 'np.argsort': np_argsort, 'np.arange': np_arange, 'np.broadcast_to': np_broadcast_to, 'np.atleast_2d': np_atleast_2d, 'np.clip': np_clip, 'spline': cl_uf('spline'),
+    'forall_real': cl_forall_real, 'np.prod': np_prod, 'np.unique': np_unique, 'np.argsort': np_argsort, 'np.arange': np_arange, 'np.broadcast_to': np_broadcast_to, 'np.atleast_2d': np_atleast_2d, 'np.clip': np_clip, 'spline': cl_uf('spline'),
     'np.deg2rad': p_uf1('deg2rad'), 'deg2rad_': cl_uf('deg2rad'), 'exp_': cl_uf('exp'),
     'erf_': cl_uf('erf'), 'sin_': cl_uf('sin'), 'cos_': cl_uf('cos'), 'sqrt_': cl_uf('sqrt'), 'asin_': cl_uf('asin'),
     'pi_': None,
